@@ -71,3 +71,14 @@ register("C25",
               "candidate outputs), random payload bytes, and random well-formed runestones enciphered and deciphered; TLC requires the "
               "observed artifact to equal Decipher(ints, outputs) of spec/Runestone.tla exactly",
          distinct=lambda r: json.dumps([r.get("f"), r.get("ints"), r.get("nOut"), r.get("script"), r.get("stone")]))
+
+register("C27",
+         cmd=lambda seed, tier, out: ["envelope", "--seed", str(seed), "--n", "400" if tier == "quick" else "5000",
+                                      "--max-len", "5" if tier == "quick" else "6", "--out", out],
+         spec="EnvelopeTrace", model=("EnvelopeModel.tla", "EnvelopeModel.cfg"), workers=8,
+         rule="every token string up to length 5 (thorough: 6) over {empty push, OP_IF, OP_ENDIF, push 'ord', data push, push-number "
+              "opcode, other opcode} plus longer random strings, written as a real tapscript witness and parsed by the real "
+              "RawEnvelope::from_transaction; inscriptions with every field present/absent and value lengths from {1, 2, 519, 520, 521, "
+              "1040, 1041, 1600} built by ord's own reveal-script builder (1-3 per script) and parsed back; pointer/delegate/parent compact "
+              "encodings at byte-length boundaries through Inscription::new; random witness bytes",
+         distinct=lambda r: json.dumps([r.get("f"), r.get("toks"), r.get("built"), r.get("value"), r.get("index")]))
